@@ -442,8 +442,17 @@ def write_cog_layers(
         ):
             if dst == ":mem:":
                 with rasterio.MemoryFile() as _dst:
-                    rio_copy(temp_fname, _dst.name, copy_src_overviews=True, **rio_opts)
+                    rio_copy(
+                        temp_fname,
+                        _dst.name,
+                        driver="GTiff",
+                        copy_src_overviews=True,
+                        **rio_opts,
+                    )
                     return bytes(_dst.getbuffer())  # makes a copy of compressed data
             else:
-                rio_copy(temp_fname, dst, copy_src_overviews=True, **rio_opts)
+                # driver: do not guess it from the file name
+                rio_copy(
+                    temp_fname, dst, driver="GTiff", copy_src_overviews=True, **rio_opts
+                )
                 return Path(dst)
